@@ -6,7 +6,10 @@ From HV Require Import Chan.Base Chan.ModelMpsc Chan.ModelMpscChk Chan.PMpscSafe
 From HV Require Import Chan.PMpscAll Chan.PMpscObs.
 Import ListNotations.
 
-(* Safety, every executor policy (also spurious polls and cancelled senders), every number of
+(* Label alphabet: poll a sender task (all outstanding sends of its stage), poll the receiver,
+   drop a sender task, close_this_sender, try_send, clone the sender for a new task, cancel one
+   outstanding send future, close / drop the receiver.
+   Safety, every executor policy (also spurious polls and cancelled senders), every number of
    tasks, every program, every capacity (bounded or not), every label sequence: the received
    sequence is a prefix of the successful-send sequence and what is missing is exactly the
    buffer (FIFO, exactly once, nothing lost). *)
@@ -36,6 +39,13 @@ Theorem C16_closure_consistent : forall p c progs tr s l s' o,
 Proof. exact closure_consistent. Qed.
 Print Assumptions C16_closure_consistent.
 
+(* try_send reports Closed iff the receiver was closed or dropped earlier in the trace *)
+Theorem C16_try_send_closure : forall p c progs tr s t x s' r ws,
+  reachable p (init c progs) tr s -> step p s (TrySend t x) = Some (s', OTry r ws) ->
+  (r = SClosed <-> existsb is_close tr = true).
+Proof. exact try_send_closure. Qed.
+Print Assumptions C16_try_send_closure.
+
 (* Liveness as absence of the bad quiescent state -- the FULL statement, no class restriction:
    for EVERY executor policy (tasks polled only when woken or also spuriously, sender tasks
    dropped at any time), any number of tasks, any number of outstanding sends per task, any
@@ -54,11 +64,12 @@ Theorem C16_no_strand : forall p c progs tr s,
 Proof. exact no_strand_all. Qed.
 Print Assumptions C16_no_strand.
 
-(* stronger progress form for the strict single-outstanding class (also when the buffer is
-   full): a waiting sender always coexists with a runnable task *)
+(* stronger progress form for the strict single-outstanding class and the original label
+   alphabet (`basic`: no try_send / clone / cancelled future), also when the buffer is full:
+   a waiting sender always coexists with a runnable task *)
 Theorem C16_waiting_implies_runnable : forall c progs tr s t,
   cap_ok c = true -> single_progs progs = true ->
-  reachable strict (init c progs) tr s ->
+  reachable strict (init c progs) tr s -> forallb basic tr = true ->
   t < ntasks s -> waiting (tasks s t) = true ->
   rx_runnable s = true \/ exists u, u < ntasks s /\ runnable (tasks s u) = true.
 Proof. exact waiting_implies_runnable. Qed.
